@@ -20,7 +20,7 @@ VARIABLE x
 \* (TLC strings stay ASCII): U2 U3 U4.
 Tokens ==
   << "build ", "rule ", "default ", "pool ", "include ", "subninja ",
-     "x", "a.b", "cc", "phony",
+     "x", "a.b", "cc", "phony", "build.ninja",     \* (the manifest's own name: include cycles)
      " ", "  ", "=", ":", "|", "||", "|@",
      "$x", "${x}", "${", "$", "$\n", "$ ", "$:", "$$", "$-",
      "#c", "\n", "\t", "\r", "\r\n",
